@@ -74,6 +74,21 @@ func runM5b(p *an.Prog, r *an.Result) {
 					if b, ok := y.Call.Value.(*ssa.Builtin); ok && (b.Name() == "len") {
 						continue
 					}
+					// the read-only helpers of package maps (iterate, compare, copy out of)
+					if cn := an.CallName(&y.Call); strings.HasPrefix(cn, "maps.") {
+						base := cn
+						if i := strings.Index(base, "["); i > 0 {
+							base = base[:i]
+						}
+						switch base {
+						case "maps.Keys", "maps.Values", "maps.All", "maps.Equal", "maps.EqualFunc", "maps.Clone":
+							continue
+						case "maps.Copy":
+							if len(y.Call.Args) == 2 && y.Call.Args[1] == v && y.Call.Args[0] != v {
+								continue // the source of a copy
+							}
+						}
+					}
 					r.Bad(name, construct+" passed to "+nonEmpty(an.CallName(&y.Call), "a call"), y.Pos(), fmt.Sprintf("%s hands the shared map %s.%s to another function at run phase: once it leaves the structure that owns it, it can be written by any render", name, an.TypeName(owner), fname))
 				case *ssa.BinOp:
 					// comparison with nil
